@@ -64,8 +64,9 @@ def r_process(ck: Checker) -> None:
     ck.need(loop is not None and isinstance(loop.target, ast.Tuple), "loop over (literal_set, occurrences)")
     lset, occ = [unparse(e) for e in loop.target.elts]  # type: ignore[union-attr]
     ck.guard("a set is factored out only if it occurs at least twice", func, r, f"1 < len({occ})", "")
-    k = [key for key, v in it.known(r) if v is False and key.replace(" ", "").startswith("len({(b.ruleid,b.sub_ast,b.sub_sub_ast)forbin")]
-    k += [key for key, v in it.known(r) if v is True and key.replace(" ", "").startswith("1<len({(b.ruleid,b.sub_ast,b.sub_sub_ast)forbin")]
+    pat = re.compile(r"len\(\{\((\w+)\.ruleid, \1\.sub_ast, \1\.sub_sub_ast\) for \1 in ")
+    k = [key for key, v in it.known(r) if v is False and pat.match(key)]
+    k += [key for key, v in it.known(r) if v is True and key.startswith("1 < ") and pat.match(key[4:])]
     ck.add("... at two different places", bool(k), func, r, f"dominating fact {k}", "two sub-selections of the same place overlap")
     body = kwarg(r, "body", 2)
     head = kwarg(r, "head", 1)
